@@ -234,6 +234,111 @@ def check_grid(rec, source, order, mesh, orc):
               [g.node_face_connectivity.dims, g.edge_face_connectivity.dims, g.face_face_connectivity.dims])
 
 
+# ------------------------------------------------------------------------------------------------ sliced grids
+# what exists on the SOURCE grid before it is sliced: attributes read (lazily built) / tables shipped with the source
+PRE = {
+    "nothing": ((), ()),
+    "node_face": (("node_face_connectivity",), ()),
+    "n_max_node_faces": (("n_max_node_faces",), ()),
+    "edge_face": (("edge_face_connectivity",), ()),
+    "face_face": (("face_face_connectivity",), ()),
+    "holes": (("hole_edge_indices",), ()),
+    "all_incidence": (("node_face_connectivity", "edge_face_connectivity", "face_face_connectivity", "hole_edge_indices"), ()),
+    "shipped_node_face": ((), ("node_face_connectivity",)),
+    "shipped_face_face": ((), ("face_face_connectivity",)),
+}
+
+
+def _oracle_tables(orc):
+    """node_face / face_face tables of the oracle in uxarray's layout (to ship them with a source grid)"""
+    def pad(rows, width):
+        out = np.full((len(rows), max(width, 1)), FILL, dtype=np.int64)
+        for i, r in enumerate(rows):
+            out[i, :len(r)] = r
+        return out
+    nf = [sorted(orc.faces_of_node[n]) for n in range(orc.n_node)]
+    ff = [sorted(c.elements()) for c in orc.neigh]
+    return {"node_face_connectivity": pad(nf, max(len(r) for r in nf)), "face_face_connectivity": pad(ff, orc.n_max)}
+
+
+def _slice_routes(mesh, orc):
+    """(label, function source grid -> sliced grid); the selections are proper sub-selections wherever the mesh allows it, so
+    that face / node numbers of the slice differ from the source's"""
+    import uxarray as ux
+    nf = orc.n_face
+    faces = [nf - 1] + list(range(0, nf - 1, 2))                  # unsorted, without face 1
+    node = orc.corners[nf - 1][0]
+    return [
+        ("Grid.isel(n_face)", lambda g: g.isel(n_face=faces)),
+        ("Grid.isel(n_node)", lambda g: g.isel(n_node=[node])),
+        ("Grid.isel(n_edge)", lambda g: g.isel(n_edge=[0])),
+        ("UxDataArray.isel(n_face)", lambda g: ux.UxDataArray(np.arange(nf, dtype=float), dims=["n_face"], uxgrid=g,
+                                                              name="v").isel(n_face=faces).uxgrid),
+    ]
+
+
+def check_sliced(rec, mesh, orc, pres):
+    """C03 on grids obtained by slicing: the incidence tables of the SLICE are exact for the slice's own face-node table,
+    whatever was built on / shipped with the source grid before (no table with the source's numbering may survive)"""
+    inp0 = _desc(mesh["name"], mesh["faces"])
+    for route, fn in _slice_routes(mesh, orc):
+        for pre in pres:
+            reads, ships = PRE[pre]
+            sc = f"sliced:{route}:source_had_{pre}"
+            inp = dict(inp0, call=route, read_on_source_before_slicing=list(reads), shipped_with_source=list(ships))
+            tabs = _oracle_tables(orc) if ships else {}
+            g = grid_of(mesh, **{t: tabs[t].copy() for t in ships})
+            try:
+                for a in reads:
+                    getattr(g, a)
+                sub = fn(g)
+            except Exception as e:
+                rec.check(False, f"slicing raises {type(e).__name__}", sc, f"{type(e).__name__}: {e}"[:200], inp)
+                continue
+            sorc = Oracle(sub.face_node_connectivity.values, int(sub.n_node))
+            if not sorc.manifold:
+                continue
+            got = {}
+            try:
+                for attr in ("edge_node_connectivity", "node_face_connectivity", "edge_face_connectivity", "face_face_connectivity",
+                             "hole_edge_indices"):
+                    got[attr] = np.array(getattr(sub, attr).values)
+            except Exception as e:
+                rec.check(False, f"{attr} raises {type(e).__name__}", sc, f"{type(e).__name__}: {e}"[:200], inp)
+                continue
+            edge_pairs = [frozenset((int(a), int(b))) for a, b in got["edge_node_connectivity"]]
+            if len(set(edge_pairs)) != len(edge_pairs) or set(edge_pairs) != set(sorc.faces_of_pair):
+                continue            # C02's business
+            inp = dict(inp, slice_face_node_connectivity=_small(sub.face_node_connectivity.values, 80))
+            check_node_face(rec, sc, inp, sorc, got["node_face_connectivity"])
+            check_edge_face(rec, sc, inp, sorc, edge_pairs, got["edge_face_connectivity"])
+            check_face_face(rec, sc, inp, sorc, got["face_face_connectivity"])
+            check_holes(rec, sc, inp, sorc, edge_pairs, got["hole_edge_indices"])
+            valence = max(len(s_) for s_ in sorc.faces_of_node.values())
+            rec.check(int(sub.n_max_node_faces) == got["node_face_connectivity"].shape[1] and int(sub.n_max_node_faces) >= valence,
+                      "n_max_node_faces == node_face table width >= largest node valence", sc, "width attribute of the slice", inp,
+                      int(sub.n_max_node_faces), [got["node_face_connectivity"].shape[1], valence])
+
+
+def _sliced_pass(rec, tier, seed, distinct):
+    ms = [mg.mk("lattice3x3_quads_tris", [-15.0, -5.0, 5.0] * 3, [5.0] * 3 + [15.0] * 3 + [25.0] * 3,
+                [[0, 1, 4, 3], [1, 2, 5, 4], [3, 4, 7, 6], [4, 5, 8], [4, 8, 7]])]
+    pool = [m for m in mg.small_meshes() + _extra_meshes()[:1] + mg.closed_meshes()[:2] if m["n_face"] >= 3]
+    ms += pool if tier == "thorough" else pool[seed % 3::3][:3]
+    if tier == "thorough":
+        ms += [m for m in mg.random_meshes(seed * 31 + 7, 12) if m["n_face"] >= 3]
+    n = 0
+    for i, m in enumerate(ms):
+        orc = Oracle(m["faces"], m["n_node"])
+        if not orc.manifold:
+            continue
+        n += 1
+        distinct.add(("sliced", m["faces"].tobytes(), m["faces"].shape))
+        # quick: every pre-state on the fixed lattice, the three that differ most on the other meshes
+        check_sliced(rec, m, orc, list(PRE) if (i == 0 or tier == "thorough") else ["nothing", "all_incidence", "shipped_node_face"])
+    return n
+
+
 # ------------------------------------------------------------------------------------------------ builders
 def check_builders(rec, source, mesh, orc):
     from uxarray.grid import connectivity as C
@@ -391,6 +496,7 @@ def _incidence(tier, seed, child):
 
     cat, ncat, skipped = _catalogue_pass(rec, tier, seed, distinct)
     samples += [{"mesh": m["name"], "n_face": m["n_face"], "n_node": m["n_node"]} for m in cat[:2]]
+    nsl = _sliced_pass(rec, tier, seed, distinct)
 
     n_node = 5
     if tier == "thorough":
@@ -425,7 +531,9 @@ def _incidence(tier, seed, child):
     bound = (f"{ncat} manifold catalogue + hand-made meshes (open fan valence 7, isolated faces, node-only contact, unused node, pillow; "
              f"tier {tier}) x {len(ORDERS)} first-access orders + direct builder calls fed with the stand-in's own edge tables; {scope} "
              f"32580 standard-form tables with <=2 faces, <=4 corners, 5 nodes of which {nt} manifold ones were checked "
-             f"({skipped} non-manifold inputs skipped: outside the quantifier); {jit}")
+             f"({skipped} non-manifold inputs skipped: outside the quantifier); slices (Grid.isel by face / node / edge, "
+             f"UxDataArray.isel) of {nsl} meshes whose source had nothing / each incidence table / all of them built or node_face, "
+             f"face_face shipped before slicing, tables of the slice checked against the slice's own face-node table; {jit}")
     return result(rec.cases, len(distinct), rec.failures, bound, samples)
 
 
